@@ -1,5 +1,6 @@
 import Driver.Util
 import Faithful.Lib.AccumCar
+import Faithful.Lib.AccumQueue
 import Faithful.Lib.Hash
 open Drv
 
@@ -26,6 +27,44 @@ def canon (gs : List Group) : String :=
 def parseKinds (w : String) : List UInt8 :=
   if w = "-" then [] else (w.splitOn ",").map fun p => UInt8.ofNat p.toNat!
 
+/-- splitmix64, as `zzverif.RNG` -/
+def nextRand (st : UInt64) : UInt64 × UInt64 :=
+  let st := st + 0x9E3779B97F4A7C15
+  let z := st
+  let z := (z ^^^ (z >>> 30)) * 0xBF58476D1CE4E5B9
+  let z := (z ^^^ (z >>> 27)) * 0x94D049BB133111EB
+  (z ^^^ (z >>> 31), st)
+
+/-- Replays the run as two goroutines (`Accum.exec`) under a schedule drawn from `seed`: a random stretch (reader steps,
+    flusher steps, pool clean-ups, small or real buffer sizes, stale pooled buffers, callback appending in place or not)
+    followed by round-robin until both have returned.  By `C15.fifo_any_speed` / `fifo_fair_completes` the callbacks
+    observed are `run` whatever the schedule; the driver checks it on the spot and marks a disagreement. -/
+def schedOK (c : Car) (ig : List UInt8) (k : UInt8) (skip : Nat) (seed : Nat) (expect : List Group) : Bool := Id.run do
+  let mut r : UInt64 := UInt64.ofNat seed * 0x9E3779B97F4A7C15 + 0xc15
+  let (x, r1) := nextRand r
+  r := r1
+  let cfg : Cfg := { cap0 := [1, 2, 7, 5000][(x % 4).toNat]!, qcap := [1, 3, 1000][((x >>> 8) % 3).toNat]!,
+                     grow := fun n => 2 * n + 1 }
+  let app := seed % 2 == 1
+  let mut s := init c skip ((x >>> 16) % 3).toNat
+  let n0 := 9 * c.secs.length + 12
+  for _ in [0:2 * n0] do
+    let (y, r2) := nextRand r
+    r := r2
+    let ev : Ev := match (y % 16).toNat with
+      | 0 => .gc
+      | 1 | 2 | 3 | 4 | 5 | 6 | 7 => .p ((y >>> 8) % 3).toNat
+      | _ => .c app
+    -- long one-sided stretches as well: every so often one side runs alone for a while
+    let burst := if (y >>> 20) % 64 == 0 then ((y >>> 32) % 40).toNat else 0
+    s := step cfg ig k s ev
+    for _ in [0:burst] do
+      s := step cfg ig k s ev
+  for _ in [0:n0] do
+    if s.finished then break
+    s := step cfg ig k (step cfg ig k s (.p 0)) (.c app)
+  return s.finished && s.observed == expect && !s.bad && s.reread == s.seen
+
 structure St where
   car : Option Car := none
   bytes : List UInt8 := []
@@ -39,14 +78,18 @@ def step (st : St) (l : String) : St × String :=
     | none => ({ car := none, bytes := [] }, "err")
     | some c => ({ car := some c, bytes := b },
         s!"car hdr={c.header.length} secs={c.secs.length} xx={hexNat (H.xxhash64 b).toNat 16}")
-  | ["run", ig, k, skip, _mode, _procs, _seed] =>
+  | ["run", ig, k, skip, _mode, _procs, seed] =>
     match st.car with
     | none => (st, "nocar")
     | some c =>
       let skip := skip.toNat!
       -- `data[1]` on a node with fewer than two bytes: index out of range in the reading goroutine
       if !(c.secs.drop skip).all (fun s => decide (2 ≤ s.data.length)) then (st, "panic")
-      else (st, canon (run c (parseKinds ig) (UInt8.ofNat k.toNat!) skip))
+      else
+        let ig := parseKinds ig
+        let k := UInt8.ofNat k.toNat!
+        let gs := run c ig k skip
+        (st, canon gs ++ (if schedOK c ig k skip seed.toNat! gs then "" else " MODEL-SCHED-DISAGREE"))
   | _ => (st, "bad-op")
 
 def run (lines : Array String) : IO Unit := do
